@@ -16,6 +16,7 @@ mod core;
 mod jtree;
 mod registry;
 mod scan;
+mod selftest;
 
 use crate::core::{Acc, JobCfg, PROP};
 use crate::jtree::J;
@@ -208,8 +209,11 @@ fn run(rep: &Report) {
     rep.assume("CPython 3.11 json module and the pyo3 0.29 conversions between Python and Rust integers / strings are trusted");
 
     let reg = registry();
+    let t0 = std::time::Instant::now();
     let (mut jobs, costs) = plan(&reg, thorough);
+    eprintln!("C20 timing: plan {:.1}s ({} jobs)", t0.elapsed().as_secs_f64(), jobs.len());
     let mut results = run_jobs(&jobs, rep);
+    eprintln!("C20 timing: +first level {:.1}s", t0.elapsed().as_secs_f64());
     if thorough {
         // second level: behind every first write that produced a new JSON shape
         let mut firsts: Vec<(usize, (usize, Vec<u8>, usize))> = Vec::new();
@@ -225,6 +229,7 @@ fn run(rep: &Report) {
         let r2 = run_jobs(&second, rep);
         jobs.extend(second);
         results.extend(r2);
+        eprintln!("C20 timing: +second level {:.1}s ({} jobs)", t0.elapsed().as_secs_f64(), jobs.len());
     }
 
     let mut per_type: BTreeMap<usize, Acc> = BTreeMap::new();
@@ -313,6 +318,10 @@ fn main() {
     if std::env::var("C20_WORKER").is_ok() {
         worker_main();
         return;
+    }
+    if std::env::var("C20_SELFTEST").is_ok() {
+        mc::report::quiet_panics();
+        std::process::exit(selftest::main());
     }
     mc::cli::main(PROP, "exploration", run, replay)
 }
